@@ -101,7 +101,30 @@ func genSep(rt *rapid.T, needBlank, blankFirst bool) string {
 	return s
 }
 
-var marks = []string{"EOF", "E", "EOFD", "MARK", "_", "end_x", "Zz"}
+var marks = []string{"EOF", "E", "EOFD", "MARK", "_", "end_x", "Zz", "ABAB", "AAB", "EOF", "ABAB"}
+
+// genHereLine draws one content line. Besides random bytes it produces the lines a
+// terminator matcher has to get right: proper prefixes of the marker (also as the last line,
+// directly before the real terminator), the marker inside a line, a prefix of the marker
+// followed by something else, empty and blank-only lines.
+func genHereLine(rt *rapid.T, mark string) []byte {
+	switch k := hx.Uniform(rt, 12, "linekind"); {
+	case k < 5:
+		return genRun(rt, 0, 8, allowLine)
+	case k < 8: // proper prefix of the marker (the empty one included)
+		return []byte(mark[:hx.Uniform(rt, len(mark), "prefixlen")])
+	case k < 9: // the marker not at the line start
+		pre := []string{".", "x ", "é", mark[:len(mark)-1], "="}
+		return []byte(pre[hx.Uniform(rt, len(pre), "pre")] + mark + []string{"", " ", "x"}[hx.Uniform(rt, 3, "post")])
+	case k < 10: // a prefix of the marker, then something else
+		n := hx.Uniform(rt, len(mark), "prefixlen")
+		return append([]byte(mark[:n]), genRun(rt, 1, 3, func(c byte) bool { return c != '\n' && c != mark[n] })...)
+	case k < 11:
+		return nil
+	default:
+		return []byte([]string{" ", "\t", "  \t"}[hx.Uniform(rt, 3, "blankline")])
+	}
+}
 
 func genHere(rt *rapid.T) *Here {
 	h := &Here{Mark: marks[hx.Uniform(rt, len(marks), "mark")]}
@@ -118,9 +141,8 @@ func genHere(rt *rapid.T) *Here {
 	nl := rapid.IntRange(1, 4).Draw(rt, "nlines")
 	lines := make([][]byte, nl)
 	for i := range lines {
-		lines[i] = genRun(rt, 0, 8, allowLine)
+		lines[i] = genHereLine(rt, h.Mark)
 	}
-	// boundary: the blank-trimmed content must begin and end with a solid byte
 	solid := func(lab string) byte {
 		const s = "x#=\"\\<.9\xff\xc3\x80"
 		return s[hx.Uniform(rt, len(s), lab)]
@@ -136,8 +158,23 @@ func genHere(rt *rapid.T) *Here {
 		}
 		return out
 	}
-	lines[0] = append(append(blanks("lead"), solid("s0")), lines[0]...)
-	lines[nl-1] = append(append(lines[nl-1], solid("s1")), blanks("trail")...)
+	join := func() string {
+		l := make([]string, len(lines))
+		for i := range lines {
+			l[i] = string(lines[i])
+		}
+		return trimBlanks(strings.Join(l, "\n"))
+	}
+	// boundaries. Half of the time each end is wrapped as blanks+solid byte (exercises the
+	// trimming); otherwise the drawn line stays as it is when the text begins/ends with a
+	// solid byte there, and when it does not (empty / CR / VT / FF line at that end) it is
+	// kept as an open-text heredoc with probability 40 % and wrapped otherwise.
+	if tb := join(); hx.Chance(rt, 50, "wrap-start") || ((tb == "" || asciiSpace(tb[0])) && !hx.Chance(rt, 40, "open-start")) {
+		lines[0] = append(append(blanks("lead"), solid("s0")), lines[0]...)
+	}
+	if tb := join(); hx.Chance(rt, 50, "wrap-end") || ((tb == "" || asciiSpace(tb[len(tb)-1])) && !hx.Chance(rt, 40, "open-end")) {
+		lines[nl-1] = append(append(lines[nl-1], solid("s1")), blanks("trail")...)
+	}
 	for i := range lines {
 		if strings.HasPrefix(trimBlanks(string(lines[i])), h.Mark) {
 			// steer away from a content line that looks like the terminator
@@ -242,8 +279,41 @@ var EnumAlphabet = []byte{' ', '\t', '\n', '"', '\\', '=', '<', 'a', 0xC3}
 var rawTokens = []string{" ", "\t", "\n", "\"", "\\", "=", "<", "a", "\xc3", "E", "\xff", "\r", "\x00",
 	"=<<E\n", "\nE", "\\\n", "\\\"", "\\\\", "a=", "\"a b\"", "é", "<<", " \\"}
 
-// GenBytes draws a raw string of 7..40 tokens (mostly the significant single bytes).
+// HereEnumMarkers / HereEnumAlphabet: the second exhaustive family (TestEnumHeredoc):
+// "k=<<M NL body NL M t NL n x NL" for every body up to a bound over the alphabet, for a
+// plain, a repeating and an overlapping-prefix marker.
+var HereEnumMarkers = []string{"AB", "AAB", "ABAB"}
+
+var HereEnumAlphabet = []byte{'A', 'B', '\n', ' ', 'x'}
+
+// HereEnumInput builds the input of one enumerated heredoc body.
+func HereEnumInput(mark string, body []byte) string {
+	return "k=<<" + mark + "\n" + string(body) + "\n" + mark + " t\nn x\n"
+}
+
+// genRawHeredoc draws a raw heredoc-shaped string from marker-related tokens; whether it
+// lies inside the grammar is decided by the reference splitter.
+func genRawHeredoc(rt *rapid.T) string {
+	mark := []string{"E", "EOF", "AB", "AAB", "ABAB"}[hx.Uniform(rt, 5, "rmark")]
+	toks := []string{"\n", "\n", " ", "x", "\xc3", mark, mark[:len(mark)-1], mark[:1], mark + "x", "." + mark, "\r", "\t"}
+	var sb strings.Builder
+	sb.WriteString([]string{"", "a ", "\n", " "}[hx.Uniform(rt, 4, "rlead")])
+	sb.WriteString([]string{"k", "--k", "é", "k.1"}[hx.Uniform(rt, 4, "rname")])
+	sb.WriteString("=<<" + mark + "\n")
+	for i, n := 0, rapid.IntRange(1, 8).Draw(rt, "rbody"); i < n; i++ {
+		sb.WriteString(toks[hx.Uniform(rt, len(toks), "rtok")])
+	}
+	sb.WriteString("\n" + mark)
+	sb.WriteString([]string{"", "\n", " t\n", "\nn x", " t\nn x\n", "\n\nn\n"}[hx.Uniform(rt, 6, "rtail")])
+	return sb.String()
+}
+
+// GenBytes draws a raw string of 7..40 tokens (mostly the significant single bytes), or
+// (30 %) a heredoc-shaped string.
 func GenBytes(rt *rapid.T) BytesCase {
+	if hx.Chance(rt, 30, "raw-heredoc") {
+		return BytesCase{In: B(genRawHeredoc(rt))}
+	}
 	max := 24
 	if hx.Thorough() {
 		max = 60
